@@ -21,3 +21,9 @@ def run(ctx, rep):
     sync.rule_sched_table(mod, rep)
     from ..rules import more
     more.rule_release_after(mod, rep)
+    import re
+    from ..rules import more2
+    more2.rule_arg_names(mod, rep, lambda f: re.match(r"p[sdcz]gstrf|pxgstrf", f.name) is not None, floor=1)
+    from ..rules import more3
+    more3.rule_prune_guard(mod, rep)
+    more3.rule_queue_order(mod, rep)
